@@ -319,8 +319,20 @@ def lin(w, terms, c):
     ts = tuple(sorted([(t, k) for t, k in acc.items() if k]))
     if not ts:
         return const(c, w)
-    if len(ts) == 1 and ts[0][1] == 1 and c == 0:
-        return ts[0][0]
+    if len(ts) == 1 and ts[0][1] == 1:
+        t = ts[0][0]
+        if c == 0:
+            return t
+        # carry-free case: the summand's low bits are constant and absorb the constant without a carry
+        m = 0
+        lowc = 0
+        for l, cc, n in t:
+            if l:
+                break
+            lowc |= cc << m
+            m += n
+        if 0 < m < w and c < (1 << m) and lowc + c < (1 << m):
+            return concat([const(lowc + c, m), extract(t, m, w - m)])
     return full(node('add', w, (ts, c)))
 
 
